@@ -245,7 +245,7 @@ def run_shard(spec):
             continue
         case = gen(core.rng(PID, spec["seed"], spec["shard"], i), spec)
         problems, run = execute(case, result)
-        result.case({"calls": len(case["meta"]["calls"]), "direction": case["meta"].get("direction")},
+        result.case(common.sample(case, run, **{"calls": len(case["meta"]["calls"]), "direction": case["meta"].get("direction")}),
                     nontrivial=len(run.of("call", op="execute")) >= 2, key=common.shape(case) + str(case["meta"]))
         for what, mech in problems:
             clean = {k: v for k, v in spec.items() if k != "only_case"}
